@@ -18,6 +18,7 @@ import (
 	_ "github.com/pion/interceptor/verifh/c03"
 	_ "github.com/pion/interceptor/verifh/c04"
 	_ "github.com/pion/interceptor/verifh/c08"
+	_ "github.com/pion/interceptor/verifh/c09"
 	_ "github.com/pion/interceptor/verifh/c10"
 	_ "github.com/pion/interceptor/verifh/c11"
 	_ "github.com/pion/interceptor/verifh/c13"
